@@ -142,8 +142,8 @@ def run_derivatives(ctx: Ctx) -> None:
                                 return False, f"mixed derivative d{CH[c]}/d{LETTERS[j]}{LETTERS[k]} is not symmetric"
                 return n_checked[0] == D * D * D, f"{n_checked[0]} second derivatives checked"
             _guard(ctx, "T5.second-order", f"D={D}:{mode}", fS, f"D={D} mode={mode} second order", th2)
-        # jacobian family
-        def thj(D=D, shape=shape):
+        # jacobian family, with the spacing given in each documented form (tensor, tuple, list: all in the order (sx, sy[, sz]))
+        def thj(D=D, shape=shape, form="tensor"):
             reset_relations()
             facts = fresh_facts()
             it = make_interp(ctx)
@@ -152,7 +152,7 @@ def run_derivatives(ctx: Ctx) -> None:
                 facts.declare_positive(x)
             u, cu = poly_field(D, shape, h, 1, "u")
             v, cv = poly_field(D, shape, h, 1, "v")
-            sp = STensor.from_flat(h, [D])
+            sp = STensor.from_flat(h, [D]) if form == "tensor" else (tuple(h) if form == "tuple" else list(h))
             A = STensor.from_nested(cu["A"])
             I = symt.eye(D)
             for add_identity in (False, True):
@@ -202,6 +202,9 @@ def run_derivatives(ctx: Ctx) -> None:
                 return False, "lie_bracket(u, v) != -lie_bracket(v, u)"
             return True, ""
         _guard(ctx, "T5.jacobian", f"D={D}", F_["jacobian_det"], f"D={D} jacobian family", thj)
+        for form in ("tuple", "list"):
+            _guard(ctx, "T5.jacobian", f"D={D}:spacing-{form}", F_["jacobian_dict"], f"D={D} jacobian family spacing as {form}",
+                   lambda D=D, shape=shape, form=form: thj(D, shape, form))
 
         # per-batch spacing
         def thb(D=D, shape=shape):
@@ -456,7 +459,9 @@ def run_dtype(ctx: Ctx) -> None:
     ctx.fn(prog.func("deepali.core.image", "conv1d"))
     ctx.rule("T5.dtype", "spatial_derivatives (every mode: forward, backward, central, forward_central_backward, prewitt, sobel, gaussian, bspline), "
                          "jacobian_det, divergence, curl and lie_bracket of a float64 field: the result is float64 and no dimensioned tensor is "
-                         "cast to, or computed in, a narrower float type on the way (events of the dtype-tracking interpreter)")
+                         "cast to, or computed in, a narrower float type on the way (events of the dtype-tracking interpreter); the derivatives "
+                         "of an integer-typed field with fractional spacing equal those of the same values held in floating point (the spacing "
+                         "is not cast to the integer dtype)")
     modes = ("forward", "backward", "central", "forward_central_backward", "prewitt", "sobel", "gaussian", "bspline")
     for mode in modes:
         def th(mode=mode):
@@ -487,6 +492,30 @@ def run_dtype(ctx: Ctx) -> None:
                         return False, f"{name}(mode={mode}) of float64 fields: {why}"
             return True, ""
         _guard(ctx, "T5.dtype", f"mode={mode}", fS, f"float64 field mode={mode}", th)
+
+    # integer-typed fields (displacements in voxels): the derivative is the derivative of the same values held in floating point — the
+    # spacing in particular is not truncated to the field's integer dtype
+    for mode in ("forward", "backward", "central", "forward_central_backward", "sobel", "bspline"):
+        def thi(mode=mode):
+            reset_relations()
+            fresh_facts()
+            it = make_interp(ctx)
+            shape = (5, 6)
+            vals = [(3 * i * i + 2 * i * j + j) % 17 - 5 for i in range(shape[0]) for j in range(shape[1])]
+            ui = STensor.from_flat(vals, [1, 1] + list(shape), symt.INT)
+            uf = STensor.from_flat(vals, [1, 1] + list(shape), symt.FLOAT)
+            sp = (Fraction(3, 2), Fraction(9, 4))
+            di = it.call(fS, ui, order=1, mode=mode, spacing=sp)
+            df = it.call(fS, uf, order=1, mode=mode, spacing=sp)
+            for key in df:
+                if not di[key].dtype.is_floating_point:
+                    return False, f"mode={mode}: derivative {key} of an integer field has dtype {di[key].dtype.name}"
+                if not teq(di[key], df[key]):
+                    return False, (f"mode={mode}: derivative {key} of an integer-typed field with spacing (3/2, 9/4) differs from the derivative of "
+                                   f"the same values in floating point (first {to_rat(di[key].flat()[0])} vs {to_rat(df[key].flat()[0])}): the "
+                                   f"spacing is cast to the field's integer dtype")
+            return True, ""
+        _guard(ctx, "T5.dtype", f"int:mode={mode}", fS, f"integer field mode={mode}", thi)
 
 
 def run_gaussian_spacing(ctx: Ctx) -> None:
